@@ -358,5 +358,25 @@ func C13(r *h.Run) {
 		}
 	}
 	tr.mu.Unlock()
+	// ---------- (3) pooled decompressors: after messages that end in each early-exit
+	// branch of Decompress (corrupt stream; decompressed size beyond the read limit),
+	// concurrent calls must never be handed the same decompressor ----------
+	connect.VerifSetPoolHooks(nil)
+	for round := 0; round < r.N(6, 30); round++ {
+		// run-length pairs (count, value): 4 wire bytes that inflate to 510 bytes, beyond the limit of 256
+		bomb := []byte{255, 'x', 255, 'y'}
+		bomb2 := []byte{255, 'x', 2, 'y'} // one byte beyond the limit
+		corrupt := []byte{3, 'a', 7} // dangling count: fails in Read
+		triggers := [][][]byte{{bomb}, {bomb2}, {corrupt}, {bomb, corrupt, bomb2}}[round%4]
+		probs, wrong, first := decompressorSharingAlgo("rle", triggers, 16, 10)
+		r.Eval("decompressor_sharing", fmt.Sprint(round))
+		in := map[string]any{"first": []string{"4 wire bytes that inflate beyond the read limit", "a message that inflates to one byte beyond the read limit", "a corrupt compressed message", "all three"}[round%4], "then": "16 goroutines x 10 valid compressed unary calls on the same handler"}
+		for _, pr := range probs {
+			r.Fail(h.Failure{Key: "pool/decompressor-shared", Family: "decompressor_sharing", What: pr, Input: in})
+		}
+		if wrong > 0 {
+			r.Fail(h.Failure{Key: "concurrency/cross-talk", Family: "decompressor_sharing", What: fmt.Sprintf("%d call(s) did not get the echo of their own request", wrong), Input: in, Actual: first})
+		}
+	}
 	r.Note("race detector enabled in this binary: %v", raceEnabled)
 }
